@@ -7,7 +7,7 @@
      nodes : ';'-separated, per node  <flags>/<dkey>/<succ>   flags: f foreign, m manifest, - none
      d0    : ','-separated node ids initially in the destination, or '-'
      trace : ','-separated event tokens or '-': the tokens of ml/c01_main.ml plus
-             XX.n  SX.n  SR.n  PX.n.ref.stored  TX.n.set  MX.n.stored  MB.n  ME.n.(m|s|c)  QK  QX  CN
+             XX.n  SX.n  SR.n  FX.n  PX.n.ref.stored  TX.n.set  MX.n.stored  MB.n  ME.n.(m|s|c)  QK  QX  CN
      api   : optionally followed by /<5 bits> (which of PreCopy PostCopy OnCopySkipped OnMounted MountFrom are
              set; the invocations of nil callbacks are inserted by Model/CopyFaultOpt.fstep_opt); followed by m when the destination is a Mounter, by c when the root is in the proxy cache at the start
              (resolveRoot through a ReferenceFetcher); m: when the destination is a registry.Mounter and MountFrom is set
@@ -46,6 +46,7 @@ let event_of tok =
   | ["XX"; n] -> ExX (nn n)
   | ["SX"; n] -> SFX (nn n)
   | ["SR"; n] -> SRX (nn n)
+  | ["FX"; n] -> FSX (nn n)
   | ["PX"; n; r; s] -> PuX (nn n, bb r, bb s)
   | ["TX"; n; s] -> TagX (nn n, bb s)
   | ["MX"; n; s] -> MtX (nn n, bb s)
